@@ -148,6 +148,24 @@ pub fn raw_lzma(payload: &[u8], lc: u32, lp: u32, pb: u32, dict: u32, size: Opti
     (wrap(c, out), payload.len() - left)
 }
 
+/// The same decode on an object that first saw `warm` (any stream) and was then reset: a reset decoder must behave
+/// like a new one, so the raw entry point is exercised in both conditions.
+pub fn raw_lzma_reused(payload: &[u8], lc: u32, lp: u32, pb: u32, dict: u32, size: Option<u64>, memlimit: Option<usize>, warm: &[u8]) -> (Outcome, usize) {
+    let mut out = Vec::new();
+    let mut rd = payload;
+    let c = catch(|| {
+        let params = LzmaParams::new(LzmaProperties { lc, lp, pb }, dict, size);
+        let mut d = LzmaDecoder::new(params, memlimit)?;
+        let mut scratch = Vec::new();
+        let mut w = warm;
+        let _ = d.decompress(&mut w, &mut scratch);
+        d.reset(Some(size));
+        d.decompress(&mut rd, &mut out)
+    });
+    let left = rd.len();
+    (wrap(c, out), payload.len() - left)
+}
+
 pub fn raw_lzma2(data: &[u8]) -> (Outcome, usize) {
     let mut out = Vec::new();
     let mut rd = data;
